@@ -1,17 +1,32 @@
-/- Line-protocol driver for the C07 model (ForML.Model.Grammar).
+/- Line-protocol driver for the C07 model (ForML.Model.Grammar, GrammarApi).
 
-   (stmt SRC)  →  (stmt RESULT SCHEMA WF SAME (NORMAL TAME RESOLVABLE PLAIN))
+   (stmt SRC)  →  (stmt RESULT SCHEMA WF SAME (NORMAL TAME RESOLVABLE PLAIN) (DUPTABLE UNNAMED DUPLICATE UNKINDED UNKNOWN ILLTYPED))
        RESULT = (ok STORED) | (error grammar|lookup|recursion|illtyped)   `construct implEqv SRC` (hash equality, free environment)
        SCHEMA = (ok ((name kind)…)) | (error E) | none                    `.schema` of the constructed statement
-       WF     = true | false                                              the documented grammar `WellFormed SRC`
+       WF     = true | false                                              the documented grammar `WellFormed SRC.norm`
        SAME   = true | false                                              `construct structEqv SRC` gives the same result
        NORMAL, TAME, RESOLVABLE, PLAIN = true | false                     the hypotheses of the partial theorems of Props/C07
+       DUPTABLE … ILLTYPED                                                the regions of Model/GrammarNorm on `SRC.norm`
+   (reflect PY)               →  (reflect (ok KIND) | (error illtyped))    `kind.reflect`
+   (direction DIRARG)         →  (direction (ok asc|desc) | (error illtyped))   `Ordering.Direction(value)`
+   (orderings TERM*)          →  (orderings (ok (ORD*)) | (error E))       `tuple(Ordering.make(*terms))` (features as given)
+   (api (chain SRC OP*))      →  (api RESULT SCHEMA SAME)                  SRC constructed, then the calls one by one
+   (api (join L R KINDARG C)) →  (api RESULT SCHEMA SAME)                  `dsl.Join(L, R, kind, C)`
+       OP      = (select F*) | (where F) | (having F) | (groupby F*) | (orderby TERM*) | (limit COUNT OFFSET)
+       TERM    = (feat F) | (dir DIRARG) | (pair F DIRARG) | (ordering F asc|desc) | (junk)
+       DIRARG  = (enum asc|desc) | (str S) | (none)
+       KINDARG = (enum KIND) | (str S) | (none)
+   literals: besides `(lit (int n)|(bool b)|(str s)|(float r))` every line may contain `(lit (py PY))`,
+       PY = (bool b) | (int n) | (float r) | (str s) | (decimal r) | (date iso) | (datetime iso) | (none) | (emptyseq) | (seq PY);
+       it is replaced by `literalOf PY` (a failing reflection makes the whole line `(error illtyped)`).
    every line may be wrapped as (let ((x sexp) …) body), `$x` atoms are substituted (see ForML.Model.Dsl).
    A table with a repeated field name is not a `dsl.Schema` → bad-op. -/
 import ForML.Model.Sexp
 import ForML.Model.Dsl
 import ForML.Model.DslEq
 import ForML.Model.Grammar
+import ForML.Model.GrammarNorm
+import ForML.Model.GrammarApi
 open ForML ForML.Dsl
 
 def errSexp : CtorErr → Sexp
@@ -45,10 +60,171 @@ def sameRes : R Source → R Source → Bool
   | .error a, .error b => decide (a = b)
   | _, _ => false
 
+/-! ### python values and literals -/
+
+partial def pyOfSexp : Sexp → Option PyVal
+  | .list [.atom "bool", .atom "true"] => some (.bool true)
+  | .list [.atom "bool", .atom "false"] => some (.bool false)
+  | .list [.atom "int", n] => n.int?.map .int
+  | .list [.atom "float", .atom r] => some (.float r)
+  | .list [.atom "str", .atom s] => some (.str s)
+  | .list [.atom "decimal", .atom r] => some (.decimal r)
+  | .list [.atom "date", .atom i] => some (.date i)
+  | .list [.atom "datetime", .atom i] => some (.datetime i)
+  | .list [.atom "none"] => some .none
+  | .list [.atom "emptyseq"] => some .emptySeq
+  | .list [.atom "seq", x] => (pyOfSexp x).map .seq
+  | _ => none
+
+inductive Rewrite where
+  | ok (x : Sexp)
+  | bad              -- not parseable
+  | raised           -- `Literal(value)` raised (`reflect`: ValueError)
+
+instance : Inhabited Rewrite := ⟨.bad⟩
+
+/-- replace every `(lit (py PY))` by the feature `literalOf PY` -/
+partial def rewriteLits : Sexp → Rewrite
+  | .list [.atom "lit", .list [.atom "py", p]] =>
+    match pyOfSexp p with
+    | none => .bad
+    | some v =>
+      match literalOf v with
+      | .ok f => .ok f.toSexp
+      | .error _ => .raised
+  | .list xs =>
+    let rec go (xs : List Sexp) (acc : Array Sexp) : Rewrite :=
+      match xs with
+      | [] => .ok (.list acc.toList)
+      | x :: rest =>
+        match rewriteLits x with
+        | .ok y => go rest (acc.push y)
+        | .bad => .bad
+        | .raised => .raised
+    go xs #[]
+  | x => .ok x
+
+/-! ### API arguments -/
+
+def dirArgOfSexp : Sexp → Option DirArg
+  | .list [.atom "enum", .atom d] => (Dir.ofWire d).map .enum
+  | .list [.atom "str", .atom s] => some (.str s)
+  | .list [.atom "none"] => some .none
+  | _ => none
+
+def joinKindArgOfSexp : Sexp → Option JoinKindArg
+  | .list [.atom "enum", .atom k] => (JoinKind.ofWire k).map .enum
+  | .list [.atom "str", .atom s] => some (.str s)
+  | .list [.atom "none"] => some .none
+  | _ => none
+
+/-- a term with its feature still a script -/
+def termOfSexp : Sexp → Option OTerm
+  | .list [.atom "feat", f] => (Feature.ofSexp f).map .feat
+  | .list [.atom "dir", a] => (dirArgOfSexp a).map .dir
+  | .list [.atom "pair", f, a] => do pure (.pair (← Feature.ofSexp f) (← dirArgOfSexp a))
+  | .list [.atom "ordering", f, .atom d] => do pure (.ordering (.mk (← Feature.ofSexp f) (← Dir.ofWire d)))
+  | .list [.atom "junk"] => some .junk
+  | _ => none
+
+def opOfSexp : Sexp → Option QOp
+  | .list (.atom "select" :: fs) => (fs.mapM Feature.ofSexp).map .select
+  | .list [.atom "where", f] => (Feature.ofSexp f).map .where_
+  | .list [.atom "having", f] => (Feature.ofSexp f).map .having
+  | .list (.atom "groupby" :: fs) => (fs.mapM Feature.ofSexp).map .groupby
+  | .list (.atom "orderby" :: ts) => (ts.mapM termOfSexp).map .orderby
+  | .list [.atom "limit", c, o] => do pure (.limit (← c.int?) (← o.int?))
+  | _ => none
+
+variable (eqv : Feature → Feature → Bool)
+
+/-- the features of a term are built before the call -/
+def constructTerm : OTerm → R OTerm
+  | .feat f => do pure (.feat (← f.construct eqv))
+  | .pair f a => do pure (.pair (← f.construct eqv) a)
+  | .ordering (.mk f d) => do
+    -- `dsl.Ordering(feature, direction)` is itself a call: `Operable.ensure_is`
+    let f' ← f.construct eqv
+    let o ← mkOrdering f' d
+    pure (.ordering o)
+  | t => pure t
+
+def constructOp : QOp → R QOp
+  | .select fs => do pure (.select (← fs.mapM (Feature.construct eqv)))
+  | .where_ c => do pure (.where_ (← c.construct eqv))
+  | .having c => do pure (.having (← c.construct eqv))
+  | .groupby fs => do pure (.groupby (← fs.mapM (Feature.construct eqv)))
+  | .orderby ts => do pure (.orderby (← ts.mapM (constructTerm eqv)))
+  | .limit c o => pure (.limit c o)
+
+/-- `src.<op1>(…).<op2>(…)…`: the arguments of each call are evaluated right before it -/
+def runCalls (c : Source) : List QOp → R Source
+  | [] => pure c
+  | op :: ops => do
+    let op' ← constructOp eqv op
+    let c' ← c.applyOp eqv op'
+    runCalls c' ops
+
+def apiEval (x : Sexp) : Option (R Source) :=
+  match x with
+  | .list (.atom "chain" :: s :: ops) => do
+    let src ← Source.ofSexp s
+    let ops' ← ops.mapM opOfSexp
+    some (do
+      let c ← src.construct eqv
+      runCalls eqv c ops')
+  | .list [.atom "join", l, r, a, c] => do
+    let l' ← Source.ofSexp l
+    let r' ← Source.ofSexp r
+    let a' ← joinKindArgOfSexp a
+    let c' ← FeatureOpt.ofSexp c
+    some (do
+      let lc ← l'.construct eqv
+      let rc ← r'.construct eqv
+      let cc ← c'.construct eqv
+      joinNew eqv lc rc a' cc.toOption)
+  | _ => none
+
+def resSexp (res : R Source) : Sexp × Sexp :=
+  match res with
+  | .error e => (.list [.atom "error", errSexp e], .atom "none")
+  | .ok st =>
+    (.list [.atom "ok", st.toSexp],
+      match st.schemaOf with
+      | .ok fs => .list [.atom "ok", fieldsToSexp fs]
+      | .error e => .list [.atom "error", errSexp e])
+
+def kindResSexp : R Kind → Sexp
+  | .ok k => .list [.atom "ok", k.toSexp]
+  | .error e => .list [.atom "error", errSexp e]
+
 def stepC07 (line : Sexp) : Sexp :=
   match expandLet line with
   | none => .atom "bad-op"
-  | some x =>
+  | some x0 =>
+    match x0 with
+    | .list [.atom "reflect", p] =>
+      match pyOfSexp p with
+      | none => .atom "bad-op"
+      | some v => .list [.atom "reflect", kindResSexp (reflect v)]
+    | .list [.atom "direction", a] =>
+      match dirArgOfSexp a with
+      | none => .atom "bad-op"
+      | some a' =>
+        .list [.atom "direction", match a'.direction with
+          | .ok d => .list [.atom "ok", .atom d.wire]
+          | .error e => .list [.atom "error", errSexp e]]
+    | _ =>
+    match rewriteLits x0 with
+    | .bad => .atom "bad-op"
+    | .raised =>
+      match x0 with
+      | .list [.atom "stmt", _] =>
+        .list [.atom "stmt", .list [.atom "error", errSexp .illtyped], .atom "none", .atom "false", .atom "true",
+          .list [], .list []]
+      | .list [.atom "api", _] => .list [.atom "api", .list [.atom "error", errSexp .illtyped], .atom "none", .atom "true"]
+      | _ => .atom "bad-op"
+    | .ok x =>
     match x with
     | .list [.atom "stmt", s] =>
       match Source.ofSexp s with
@@ -57,16 +233,25 @@ def stepC07 (line : Sexp) : Sexp :=
         if !tablesOkS r then .atom "bad-op" else
         let res := construct implEqv r
         let same := sameRes (construct structEqv r) res
-        let (rs, sch) : Sexp × Sexp := match res with
-          | .error e => (.list [.atom "error", errSexp e], .atom "none")
-          | .ok st =>
-            (.list [.atom "ok", st.toSexp],
-              match st.schemaOf with
-              | .ok fs => .list [.atom "ok", fieldsToSexp fs]
-              | .error e => .list [.atom "error", errSexp e])
-        .list [.atom "stmt", rs, sch, Sexp.ofBool (Source.wf r), Sexp.ofBool same,
-          .list [Sexp.ofBool r.normal, Sexp.ofBool r.tame, Sexp.ofBool r.resolvable, Sexp.ofBool r.plain]]
-
+        let (rs, sch) := resSexp res
+        let d := r.norm
+        .list [.atom "stmt", rs, sch, Sexp.ofBool (Source.wf d), Sexp.ofBool same,
+          .list [Sexp.ofBool r.normal, Sexp.ofBool d.tame, Sexp.ofBool d.resolvable, Sexp.ofBool d.plain],
+          .list [Sexp.ofBool d.dupTable, Sexp.ofBool d.unnamedAt, Sexp.ofBool d.duplicateAt, Sexp.ofBool d.unkindedAt,
+            Sexp.ofBool d.unknownElement, Sexp.ofBool d.illTypedCall]]
+    | .list (.atom "orderings" :: ts) =>
+      match ts.mapM termOfSexp with
+      | none => .atom "bad-op"
+      | some ts' =>
+        .list [.atom "orderings", match makeOrderings ts' with
+          | .ok os => .list [.atom "ok", .list (os.map Ordering.toSexp)]
+          | .error e => .list [.atom "error", errSexp e]]
+    | .list [.atom "api", a] =>
+      match apiEval implEqv a, apiEval structEqv a with
+      | some res, some res' =>
+        let (rs, sch) := resSexp res
+        .list [.atom "api", rs, sch, Sexp.ofBool (sameRes res' res)]
+      | _, _ => .atom "bad-op"
     | _ => .atom "bad-op"
 
 def main : IO Unit := driverLoop stepC07
